@@ -24,7 +24,9 @@ def keyboard_interrupt_on_sigterm(signum, frame):
 
 def setup_signal_handling():
     """Make SIGTERM end the program like Ctrl-C, with a KeyboardInterrupt in the
-       main thread. Only has an effect when called from the main thread."""
+       main thread. Only has an effect when called from the main thread: the
+       parallel scheduler starts all processes from worker threads, which cannot
+       install signal handlers."""
     _setup_signal_handling_if_needed()
 
 
